@@ -136,7 +136,9 @@ func c13Subjects() []c13Subject {
 				if i%2 == 0 {
 					_ = dnb.Send(bg, i)
 				} else {
-					_, _ = dnb.Receive(bg)
+					c, cc := cancelSoon(i) // the pop side waits while the deque is empty
+					_, _ = dnb.Receive(c)
+					cc()
 				}
 				_ = dnb.Len()
 			}},
@@ -585,6 +587,78 @@ func c13Subjects() []c13Subject {
 			{"oncewrap: Worker.Once fresh", func(g, i int) { sl := meet(i); _ = sl.wrkOnce(bg); _ = guardedRead(&sl.st[4]) }},
 		}, func() {}
 	}})
+	// ---- last use ----------------------------------------------------------------
+	// Shutdown paths run once per object too: a fresh broker per step (over its
+	// own one-slot Deque, unlimited Queue, or channel), with a subscriber that
+	// does not read and messages in flight, is ended in two ways at once.
+	subs = append(subs, c13Subject{"last-use", func() ([]c13Driver, func()) {
+		const slots = 240
+		type slot struct {
+			arrivals atomic.Int32
+			ctx      context.Context
+			cancel   context.CancelFunc
+			b        *pubsub.Broker[int]
+			sub      chan int
+			closeC   func()
+		}
+		ss := make([]*slot, slots)
+		for k := range ss {
+			sl := &slot{}
+			sl.ctx, sl.cancel = context.WithCancel(bg)
+			opts := pubsub.BrokerOptions{WorkerPoolSize: 1 + k%2}
+			switch k % 3 {
+			case 0:
+				dq, _ := pubsub.NewDeque[int](pubsub.DequeOptions{Capacity: 1})
+				sl.b = pubsub.NewDequeBroker[int](sl.ctx, dq, opts)
+				sl.closeC = func() { _ = dq.Close() }
+			case 1:
+				q := pubsub.NewUnlimitedQueue[int]()
+				sl.b = pubsub.NewQueueBroker[int](sl.ctx, q, opts)
+				sl.closeC = func() { _ = q.Close() }
+			default:
+				sl.b = pubsub.NewBroker[int](sl.ctx, opts)
+				sl.closeC = sl.b.Stop
+			}
+			sl.sub = sl.b.Subscribe(sl.ctx)
+			for m := 0; m < 3; m++ {
+				c, cc := cancelSoon(m)
+				sl.b.Publish(c, m)
+				cc()
+			}
+			ss[k] = sl
+		}
+		meet := func(i int) *slot {
+			sl := ss[i%slots]
+			sl.arrivals.Add(1)
+			for k := 0; k < 400 && sl.arrivals.Load() < 2; k++ {
+				if k%40 == 39 {
+					runtime.Gosched()
+				}
+			}
+			return sl
+		}
+		return []c13Driver{
+				{"end: Stop", func(g, i int) { meet(i).b.Stop() }},
+				{"end: close the broker's container", func(g, i int) { meet(i).closeC() }},
+				{"end: cancel the broker's context", func(g, i int) { meet(i).cancel() }},
+				{"end: Publish", func(g, i int) { sl := meet(i); c, cc := cancelSoon(i); sl.b.Publish(c, i); cc() }},
+				{"end: Wait(cancelled soon)", func(g, i int) { sl := meet(i); c, cc := cancelSoon(i); sl.b.Wait(c); cc() }},
+				{"end: Stats", func(g, i int) { sl := meet(i); c, cc := cancelSoon(i); _ = sl.b.Stats(c); cc() }},
+				{"end: Unsubscribe", func(g, i int) { sl := meet(i); c, cc := cancelSoon(i); sl.b.Unsubscribe(c, sl.sub); cc() }},
+				{"end: close container then Stop", func(g, i int) { sl := meet(i); sl.closeC(); sl.b.Stop() }},
+			}, func() {
+				for _, sl := range ss {
+					sl.closeC()
+					sl.b.Stop()
+					sl.cancel()
+				}
+				for _, sl := range ss {
+					c, cc := cancelSoon(19)
+					sl.b.Wait(c)
+					cc()
+				}
+			}
+	}})
 	return subs
 }
 
@@ -610,7 +684,7 @@ func runC13(r *kit.Run) {
 				if selfOnly && a != b {
 					continue
 				}
-				if sub.name == "first-use" && c13Group(drivers[a].name) != c13Group(drivers[b].name) {
+				if (sub.name == "first-use" || sub.name == "last-use") && c13Group(drivers[a].name) != c13Group(drivers[b].name) {
 					continue
 				}
 				for rep := 0; rep < reps; rep++ {
@@ -664,6 +738,7 @@ func c13Pair(r *kit.Run, idx int64, sub c13Subject, a, b, iters int) {
 	done := make(chan struct{})
 	go func() { wg.Wait(); close(done) }()
 	if !kit.WaitUntil(2*c14Watchdog, func() bool { return isClosed(done) }) {
+		r.Count(fmt.Sprintf("pair released only by its teardown: %s: %s || %s", sub.name, da.name, db.name), 1)
 		teardown()
 		if !kit.WaitUntil(c14Watchdog, func() bool { return isClosed(done) }) {
 			r.Inconclusive(fmt.Sprintf("C13 pair %s: %s || %s did not finish", sub.name, da.name, db.name))
